@@ -451,7 +451,25 @@ def gen_class_trace(b, kind, pattern):
     s = SUBJECTS[kind](b, kind, pattern)
     ops = b.ops
     allow = list(s["envs"])
-    if pattern == "refit":
+    if pattern == "refit" and rng.random() < 0.2:
+        # the caller reuses its buffers: fit, overwrite the same arrays in place, fit again
+        fa = s["fitB"]
+        ops.append({"op": "NEW", "obj": "e0", "kind": kind, "params": s["params"]})
+        ops.append({"op": "FIT", "obj": "e0", "args": fa, "env": b.env(kind, s["params"], allow)})
+        if rng.random() < 0.5:
+            ops.extend(_reads_ops("e0", s, fa, b)[:2])
+        xkey = s.get("xkey", "X")
+        hn = fa[xkey]["$h"]
+        spec = b.heap[hn]
+        if spec.get("storage") in ("readonly", "memmap"):
+            spec["storage"] = "C"
+        if "shape" in spec and spec.get("kind") in D.KINDS:
+            rec = {k: v for k, v in _strip(spec).items()}
+            rec["seed"] = _seed(rng)
+            ops.append({"op": "MUTATE", "h": hn, "recipe": rec})
+        ops.append({"op": "FIT", "obj": "e0", "args": fa, "env": b.env(kind, s["params"], allow)})
+        ops.extend(_reads_ops("e0", s, fa, b))
+    elif pattern == "refit":
         ops.append({"op": "NEW", "obj": "e0", "kind": kind, "params": s["params"]})
         ops.append({"op": "FIT", "obj": "e0", "args": s["fitA"], "env": b.env(kind, s["params"], allow)})
         if rng.random() < 0.5:
